@@ -25,7 +25,7 @@ PROPERTY = "C05"
 
 SESSIONS = {"quick": 120, "thorough": 3000}
 BUDGET_S = {"quick": 80, "thorough": 1500}
-CAP_S = {"quick": 90, "thorough": 240}
+CAP_S = {"quick": 240, "thorough": 480}
 RULE = ("one session = one generated recipe (3-8 ops over 1-3 small tables) x E drawn schedules of the simulated cluster "
         "+ 2 repeated computes + 2 executions of one graph dict; distinct = distinct digest of (recipe, schedule configs, fuse); "
         "non-trivial = at least one perturbed execution ran a graph with more than 2 tasks and was compared with the reference")
